@@ -1161,6 +1161,38 @@ Proof.
   - rewrite Ews in A. destruct (Hl s Hs) as [B|B]; rewrite B in A; discriminate.
 Qed.
 
+(* sync.WaitGroup contract: "if a WaitGroup is reused, new Add calls must happen after all previous Wait
+   calls have returned".  wg.Add(1) in newStreamWrapper on a counter that has already reached zero runs
+   concurrently with the `wg.Wait(); session.Close()` goroutine that the zero released: the runtime may
+   panic "WaitGroup is reused before previous Wait has returned" (it does, see the harness). *)
+Definition add_from_zero (st : state) (e : event) : bool :=
+  match e with
+  | Wrap s => enabled st e && registered (sess_of st s) && (refs (sess_of st s) =? 0)
+  | _ => false
+  end.
+
+Definition no_waitgroup_reuse_full : Prop := forall c evs e, add_from_zero (run evs (init c)) e = false.
+
+Definition witness_reuse : list event := [SessionUp; LCall; LStep 0; LStep 0; LStep 0; LStep 0; StreamIn 0].
+
+Lemma waitgroup_reuse_refuted : ~ no_waitgroup_reuse_full.
+Proof. intro H. specialize (H 1%nat witness_reuse (Wrap 0)). vm_compute in H. discriminate. Qed.
+
+(* it can only happen to a stream that arrives after the session's counter reached zero, i.e. after
+   listener.Close released the listener's reference with every wrapper closed *)
+Lemma waitgroup_reuse_only_after_zero : forall c evs s, let st := run evs (init c) in
+  add_from_zero st (Wrap s) = true ->
+  wg_zero (sess_of st s) = true /\ in_map (sess_of st s) = false /\ open_w st s = O.
+Proof.
+  intros c evs s st H. pose proof (rinv_run evs (init c) (rinv_init c)) as HI. fold st in HI.
+  unfold add_from_zero in H. apply andb_prop in H. destruct H as [H Hz]. apply andb_prop in H. destruct H as [He Hr].
+  apply Z.eqb_eq in Hz. cbn [enabled] in He. apply andb_prop in He. destruct He as [He _]. apply andb_prop in He. destruct He as [Hs _].
+  apply Nat.ltb_lt in Hs.
+  split; [apply (r_zero st HI s Hs Hr Hz)|].
+  pose proof (r_refs st HI s Hs) as E. rewrite Hz in E. unfold b2z in E.
+  destruct (in_map (sess_of st s)); split; try reflexivity; lia.
+Qed.
+
 (* ---------------------------------------------------------------------------------------- *)
 (* Read / Write                                                                               *)
 (* ---------------------------------------------------------------------------------------- *)
